@@ -291,6 +291,32 @@ pub fn c03() -> i32 {
     let mut rep = Report::new("C03", "fault_enumeration");
     common(&mut rep);
     core_parts(&mut rep, &["C03", "PANIC"], CK_CORE);
+    // the Disconnected clause needs players that really drop: deaths at every moment with every
+    // subset of the last packets lost, and explicit disconnects (status oracle only; the
+    // timeline of a dropped player is C07's business)
+    {
+        let t = rep.thorough();
+        let mut scns = crate::props::drop::death_scenarios("c03-death", &["1+1", "1+2", "2+1"], if t { &[0, 1, 2, 8] } else { &[0, 2, 8] }, &[0, 2], &[false, true], 0..(if t { 16 } else { 8 }), if t { 2 } else { 1 }, &[(100, 300)], &[false], crate::props::drop::CK_DROP);
+        for w in [1usize, 8] {
+            for sparse in [false, true] {
+                for r in 0..(if t { 12 } else { 6 }) {
+                    for lat in [1, 3] {
+                        let mut s = base_scn("c03-explicit-disconnect", "1+1", w, 0, sparse, Pred::RepeatLast, Program::Changing, lat);
+                        s.script.push(ScriptItem { round: r, node: 0, action: Action::Disconnect { handle: 1 } });
+                        s.name = format!("{} disconnect_player(1)@{r}", s.name);
+                        s.horizon = r + 2;
+                        s.probe = 40;
+                        s.checks = crate::props::drop::CK_DROP;
+                        scns.push(s);
+                    }
+                }
+            }
+        }
+        let n = scns.len();
+        let cfg = ExploreCfg { k: Some(0), wall: Duration::from_secs(if t { 600 } else { 30 }), ..Default::default() };
+        let out = explore(&scns, &cfg, &no_judge);
+        rep.absorb("E: players that drop (death at every moment x lost last packets; explicit disconnect at every round): status truthfulness incl. the Disconnected clause", out, &["C03", "PANIC"], json!({"k": 0, "scenarios": n}));
+    }
     vacuity(&mut rep);
     rep.finish()
 }
